@@ -150,6 +150,36 @@ def h_end2end(g, which, n):
     g.eq("diagonal has unit modulus", [d * fn.conj(d) for d in diags], [1 + 0 * diags[0]] * n)
 
 
+def h_phased_perm(g, which, perm):
+    """sparse unitaries: a permutation matrix with an arbitrary phase on every non-zero entry (exact zeros drive the
+    decompositions through their division-by-zero branches, which dense unitaries never reach)"""
+    import strawberryfields.decompositions as dec
+    n = len(perm)
+    like = sarray([0]) if g.sym else np.zeros(1)
+    V = fn.zeros((n, n), like) if g.sym else np.zeros((n, n), dtype=complex)
+    for i, j in enumerate(perm):
+        V[i, j] = fn.expi(g.real("ph%d" % i))
+    res = getattr(dec, which)(V)
+    q, diags = recompose(dec, which, res, n, like)
+    g.eq("reconstruction", q, V)
+    g.eq("diagonal has unit modulus", [d * fn.conj(d) for d in diags], [1 + 0 * diags[0]] * n)
+
+
+def h_block(g, which, i, j, n):
+    """block unitaries: an arbitrary U(2) acting on rows/columns (i, j), arbitrary phases elsewhere (exact zeros next to
+    dense entries)"""
+    import strawberryfields.decompositions as dec
+    like = sarray([0]) if g.sym else np.zeros(1)
+    V = embed2(su2(g), i, j, n, like)
+    for k in range(n):
+        if k not in (i, j):
+            V[k, k] = fn.expi(g.real("ph%d" % k))
+    res = getattr(dec, which)(V)
+    q, diags = recompose(dec, which, res, n, like)
+    g.eq("reconstruction", q, V)
+    g.eq("diagonal has unit modulus", [d * fn.conj(d) for d in diags], [1 + 0 * diags[0]] * n)
+
+
 def h_validation(g, which):
     """a non-unitary input is refused"""
     import strawberryfields.decompositions as dec
@@ -170,7 +200,8 @@ def build(ctx):
     ctx.outside += ["takagi (complex branch: svd, sqrtm), williamson (sqrtm, schur), bloch_messiah (polar, svd): LAPACK kernels are not encodable",
                     "end-to-end reconstruction for rectangular_MZ / rectangular_symmetric (solver does not decide the 2x2 instance reliably); "
                     "sizes above 2x2 end-to-end (3x3 for `rectangular` in the thorough tier only)",
-                    "sun_compact / _su3_parameters, graph embeddings"]
+                    "sun_compact / _su3_parameters, graph embeddings",
+                    "3x3 inputs other than phased permutations (all meshes) and U(2)+phase block unitaries (rectangular, triangular)"]
     fns = ["decompositions.T", "decompositions.Ti", "decompositions.nullT", "decompositions.nullTi", "decompositions.mach_zehnder",
            "decompositions.mach_zehnder_inv", "decompositions.nullMZ", "decompositions.nullMZi", "decompositions.M", "decompositions.P",
            "decompositions.rectangular", "decompositions.rectangular_phase_end", "decompositions.rectangular_MZ",
@@ -202,3 +233,15 @@ def build(ctx):
                     bounds={"size": 3, "unitary": "product of three embedded U(2) factors (12 angles)"}, max_paths=400)
         ctx.add("validation.%s" % which, h_validation, {"which": which}, modules=mods, functions=fns,
                 bounds={"size": 2, "matrix": "arbitrary complex"})
+    # (rectangular_phase_end on block unitaries: the phase relocation stage gives queries no solver decides in 10 min -> outside)
+    for which in ("rectangular", "triangular"):
+        for (i, j) in ((0, 1), (1, 2), (0, 2)):
+            ctx.add("block.%s.%d%d" % (which, i, j), h_block, {"which": which, "i": i, "j": j, "n": 3}, modules=mods, functions=fns,
+                    bounds={"size": 3, "unitary": "arbitrary U(2) on rows/columns (%d,%d), arbitrary phase on the third" % (i, j)},
+                    max_paths=400)
+    for which in ("rectangular", "rectangular_phase_end", "rectangular_MZ", "rectangular_symmetric", "triangular"):
+        for n in (3, 4) if ctx.thorough else (3,):
+            for perm in itertools.permutations(range(n)):
+                ctx.add("perm.%s.%s" % (which, "".join(map(str, perm))), h_phased_perm, {"which": which, "perm": list(perm)},
+                        modules=mods, functions=fns,
+                        bounds={"size": n, "unitary": "permutation %s with an arbitrary phase on each non-zero entry" % (perm,)})
